@@ -70,13 +70,59 @@ func ruleDomainSML(p *Prog, r *Report) {
 	// a number must not be followed by a letter, digit or underscore
 	if fn := p.MustFunc(r, "sml", "lexNumber"); fn != nil {
 		cls := []int64{-1, ' ', '0', '9', 'A', 'F', 'Z', '_', 'a', 'b', 'f', 'o', 'x', 'z', '>', '.', 0xAA, 0xB5, 0xC0, 0xD7, 0xF7, 0x2B0, 0x660, 0x669, 0x6F0, 0x966, 0x4E00, 0xFF10}
-		CheckDomain(p, r, DomainSpec{Rule: rule, Key: rule + ":sml.lexNumber:terminator", Fn: fn, Sink: isLexerErrorf,
-			Subjs:  []Subj{{Name: "rune after the number", Kind: SCall, Callee: "(*sml.lexer).peek", Ord: 0, Index: -1, Type: types.Typ[types.Rune]}},
-			Consts: cls, What: "the rune after a number is not a letter, digit or underscore",
-			Accept: func(v []Val) bool {
-				c := rune(v[0].I.Int64())
-				return !(c == '_' || unicode.IsLetter(c) || unicode.IsDigit(c))
-			}})
+		// by evaluation first: the number "1e5" (nothing of the number syntax can
+		// follow its exponent digits but more digits) followed by each class
+		// representative and by every ASCII character
+		ttErr, okE := smlConst(p, "tokenTypeError")
+		key := rule + ":sml.lexNumber:terminator"
+		evaluated := okE
+		var wrong []string
+		reps := append([]int64{}, cls...)
+		for c := int64(0); c < 128; c++ {
+			reps = append(reps, c)
+		}
+		for _, c := range reps {
+			if !evaluated {
+				break
+			}
+			if c >= '0' && c <= '9' {
+				continue
+			}
+			text := "1e5"
+			if c >= 0 {
+				text += string(rune(c)) + " "
+			}
+			res, ok := lexRun(p, fn, text, 0, "lexMessageText")
+			if !ok || len(res.toks) != 1 {
+				evaluated = false
+				break
+			}
+			refuse := c >= 0 && (c == '_' || unicode.IsLetter(rune(c)) || unicode.IsDigit(rune(c)))
+			isErr := res.toks[0].typ == ttErr
+			switch {
+			case refuse && !isErr:
+				wrong = append(wrong, fmt.Sprintf("a number followed by %#U is accepted (token %q)", rune(c), res.toks[0].val))
+			case !refuse && isErr:
+				wrong = append(wrong, fmt.Sprintf("a number followed by %#U is refused (%s)", rune(c), res.toks[0].val))
+			case !refuse && res.toks[0].val != "1e5":
+				wrong = append(wrong, fmt.Sprintf("the number 1e5 followed by %#U is read as %q", rune(c), res.toks[0].val))
+			}
+		}
+		if evaluated {
+			if len(wrong) > 0 {
+				r.bad(rule, key, p.Pos(fn.Pos()), strings.Join(firstN(uniq(wrong), 4), "; "))
+			} else {
+				r.ok(rule, key, p.Pos(fn.Pos()), fmt.Sprintf("evaluated on %d following characters (all ASCII and representatives of the Unicode letter and digit classes): a number is refused exactly when a letter, digit or underscore follows it", len(reps)))
+			}
+		} else {
+			CheckDomain(p, r, DomainSpec{Rule: rule, Key: rule + ":sml.lexNumber:terminator", Fn: fn, Sink: isLexerErrorf,
+				Subjs:  []Subj{{Name: "rune after the number", Kind: SCall, Callee: "(*sml.lexer).peek", Ord: 0, Index: -1, Type: types.Typ[types.Rune]}},
+				Consts: cls, What: "the rune after a number is not a letter, digit or underscore",
+				Accept: func(v []Val) bool {
+					c := rune(v[0].I.Int64())
+					return !(c == '_' || unicode.IsLetter(c) || unicode.IsDigit(c))
+				}})
+		}
 	}
 	r.Floor(rule, 6)
 }
